@@ -378,7 +378,8 @@ def rnd_script(rnd, sid, fam):
             else:
                 ops.append(fs_op())
         reacts.append((s, n, ops))
-    ls = ["B %s fam=%s poison=%d" % (sid, fam, poison), "I " + " ".join(init)]
+    # a share of the programs runs next to another thread with its own loop and inotify instance
+    ls = ["B %s fam=%s poison=%d%s" % (sid, fam, poison, " peer=1" if rnd.random() < 0.3 else ""), "I " + " ".join(init)]
     for s, (p, m) in enumerate(slots):
         ls.append("W %d %s %x" % (s, p, m))
     for ph in phases:
